@@ -208,7 +208,7 @@ class PParser:
 def gen_policy(src):
     src = strip_comments(src)
     out = ['(* GENERATED by tools/translate.py from /repo/src/policy.rs -- do not edit *)',
-           'From Coq Require Import ZArith.', 'Open Scope Z_scope.', '']
+           'From Coq Require Import ZArith.', 'Local Open Scope Z_scope.', '']
     specs = [
         ('StdPolicy', 'std_grow_to', {}),
         ('DoubleUntil', 'double_until_grow_to', {'self.0': 'self_0'}),
@@ -248,7 +248,7 @@ def gen_policy(src):
 
 def gen_const(fa, fq):
     out = ['(* GENERATED by tools/translate.py from /repo/src/fasta.rs and fastq.rs -- do not edit *)',
-           'From Coq Require Import ZArith.', 'Open Scope Z_scope.', '']
+           'From Coq Require Import ZArith.', 'Local Open Scope Z_scope.', '']
     for name, src in (('fa', fa), ('fq', fq)):
         src = strip_comments(src)
         m = re.search(r'const\s+BUFSIZE\s*:\s*usize\s*=\s*([\d\s*_]+);', src)
